@@ -61,7 +61,7 @@ Theorem C18_emptied_after_every_history : forall L cap budget fixed aid junk bid
   wf_plist L = true -> 0 <= cap -> Forall (fun c => 0 <= c) fixed ->
   let v0 := fst (mkvec L cap budget fixed aid junk bid tbid) in
   let s0 := {| s_cap := cap; s_elems := [] |} in
-  shist_valid L (fixed_counts L fixed) s0 h -> nt_hist_ok L s0 h ->
+  shist_valid L (fixed_counts L fixed) s0 h -> nt_hist_okx L s0 h ->
   s_elems (srun s0 h) = [] ->
   let v := vrun L junk v0 h in
   Rep L v [] /\ vsize L v = 0 /\ dend L v = 0.
